@@ -110,7 +110,14 @@ Theorem reshape_componentwise : forall (E : Type) new (d : val E) (s r : stokes 
   stokes_reshape new s = Ok r -> c < List.length (comps s) ->
   on_arr (arr_reshape new) (comp d s c) = Ok (comp d r c) /\ List.length (comps r) = List.length (comps s).
 Proof. intros E new d s r c. exact (smapM_component _ _ d s r c). Qed.
+(* the same for ANY index expression (integers, slices with steps, Ellipsis, None, integer arrays,
+   boolean masks of every rank, tuples of these): one leaf indexing function, applied to every component *)
+Theorem index_componentwise : forall (E : Type) es (d : val E) (s r : stokes (val E)) c,
+  stokes_index es s = Ok r -> c < List.length (comps s) ->
+  on_arr (arr_index es) (comp d s c) = Ok (comp d r c) /\ List.length (comps r) = List.length (comps s).
+Proof. intros E es d s r c. exact (smapM_component _ _ d s r c). Qed.
 Print Assumptions getitem_componentwise.
+Print Assumptions index_componentwise.
 
 (* ---- kinds and factories ----------------------------------------------------------------------- *)
 Theorem kind_rejected : forall s, ~ In s valid_names -> class_for s = Err ValueError.
@@ -289,4 +296,16 @@ Example promotion_example :
   result_ty false [mkTy DI32 false; mkTy DF16 false; mkTy DF64 true] = Some (mkTy DF16 false) /\
   result_ty true [mkTy DF16 false; mkTy DBF16 false] = Some (mkTy DF32 false) /\
   join NF64 NC64 = NC128.
+Proof. repeat split; reflexivity. Qed.
+(* general indexing on a (2,3) array [[0,1,2],[3,4,5]]: a full-rank mask selects ENTRIES (shape (k,)), a
+   leading-axis mask selects rows; x[::-1, None, [2,0]]; advanced indices separated by a slice go in front *)
+Example index_examples :
+  let a := mkArr [2; 3] (mkTy DF32 false) [0; 1; 2; 3; 4; 5]%Z in
+  arr_index [EMask [2; 3] [true; false; false; false; true; true]] a = Ok (mkArr [3] (mkTy DF32 false) [0; 4; 5]%Z) /\
+  arr_index [EMask [2] [false; true]] a = Ok (mkArr [1; 3] (mkTy DF32 false) [3; 4; 5]%Z) /\
+  arr_index [ESlice None None (-1); ENew; EIArr [2] [2; 0]%Z] a = Ok (mkArr [2; 1; 2] (mkTy DF32 false) [5; 3; 2; 0]%Z) /\
+  arr_index [EInt (-1); EEllipsis] a = Ok (mkArr [3] (mkTy DF32 false) [3; 4; 5]%Z) /\
+  arr_index [EInt 0; EInt 0; EInt 0] a = Err IndexError /\
+  arr_index [EIArr [2] [0; 1]%Z; ESlice None None 1; EIArr [2] [1; 0]%Z]
+            (mkArr [2; 2; 2] (mkTy DF32 false) [0; 1; 2; 3; 4; 5; 6; 7]%Z) = Ok (mkArr [2; 2] (mkTy DF32 false) [1; 3; 4; 6]%Z).
 Proof. repeat split; reflexivity. Qed.
